@@ -76,6 +76,8 @@ class _RandomProxy:
             idx = list(range(k))
         elif mode == "last":
             idx = list(range(len(population) - k, len(population)))
+        elif mode == "reversed":          # a draw in descending order: selection order differs from found order
+            idx = list(range(len(population) - 1, len(population) - 1 - k, -1))
         else:
             idx = _random.sample(range(len(population)), k)
         if k > len(population) or k < 0:
